@@ -72,6 +72,7 @@ VERUS_UNITS = {
 KANI_UNITS = {
     "vk_lat": {
         "mode": "dep", "crate": "contracts/kani/vk_lat", "props": LAT,
+        "harness_props": [(r"^alg::", ["C09"])],
         "what": "lattices twins (C01-C04 executable contract forms) on monomorphic instantiations; Conflict::merge; Max/Min over char, (); Point",
         "instantiation": "u8 / char / () payloads, nestings of depth <= 2; loop-free => complete for the instantiation",
     },
@@ -89,6 +90,11 @@ PROPS = {
             ("kani", "vk_lat", ["::from", "::aci", "point_u8"], ("quick", "thorough"))],
 }
 
+PROPS["C09"] = [
+    ("kani", "vk_lat", ["alg::n1", "alg::n2", "alg::c1", "alg::c2::semigroup_monoid_group_"], ("quick",)),
+    ("kani", "vk_lat", ["alg::"], ("thorough",)),
+]
+
 LEVEL = {
-    "C01": "other", "C02": "other", "C03": "other", "C04": "other",
+    "C01": "other", "C02": "other", "C03": "other", "C04": "other", "C09": "other",
 }
